@@ -157,9 +157,11 @@ pub(super) fn run(case_line: &str, ctx: &mut Ctx) -> String {
     let w: Vec<&str> = case_line.split_whitespace().collect();
     let Some(g) = parse(&w) else { return "bad-case".into() };
     let shape = Shape { nodes: 1, dcs: 1, racks: 1, shards: 0, msb: 12, vnodes: 2, strat: Strat::Simple(1), seed: 1 };
-    let n_states = g.pages - 1;
     let manual = g.op.ends_with("_pages");
-    let reorder = g.via == "pbatch";
+    // one execution of the case; `reorder`: answer prepare_batch's PREPAREs in reverse arrival order (needs a driver that
+    // sends them concurrently; if it does not within 3 s the case is re-run with plain answers - positions are judged either way)
+    let exec = |reorder: bool| -> Result<(Vec<Req>, usize), String> {
+    let n_states = g.pages - 1;
     // PREPAREs of a `Session::prepare_batch` are answered in REVERSE arrival order (completion order != position order)
     let mut held: Vec<(i16, String)> = Vec::new();
     let handler: crate::mockcluster::ClusterHandler = Box::new(move |r: &Req| {
@@ -196,7 +198,8 @@ pub(super) fn run(case_line: &str, ctx: &mut Ctx) -> String {
     });
     let rt = runtime(1);
     let g2 = g.clone();
-    let frames: Result<(Vec<Req>, usize), String> = rt.block_on(async move {
+    let shape = shape.clone();
+    rt.block_on(async move {
         let g = g2;
         let cluster = MockCluster::start(shape.topology(), handler).await;
         let mut identity = SelfIdentity::new();
@@ -355,8 +358,12 @@ pub(super) fn run(case_line: &str, ctx: &mut Ctx) -> String {
                 b.append_statement(Statement::new(TEXTB));
                 b.append_statement(Statement::new(TEXT2));
                 configure!(b);
-                if let Ok(pb) = session.prepare_batch(&b).await {
-                    let _ = session.batch(&pb, ((vec![1u8, 2],), (vec![1u8, 2], 5i32), (vec![1u8, 2],), ())).await;
+                match tokio::time::timeout(std::time::Duration::from_secs(3), session.prepare_batch(&b)).await {
+                    Err(_) if reorder => return Err("retry-plain".to_string()),
+                    Ok(Ok(pb)) => {
+                        let _ = session.batch(&pb, ((vec![1u8, 2],), (vec![1u8, 2], 5i32), (vec![1u8, 2],), ())).await;
+                    }
+                    _ => {}
                 }
             } else if g.via == "handle" {
                 let Ok(ps) = session.prepare(INSERT).await else { return Err("e2e-skip prepare-failed".to_string()) };
@@ -383,7 +390,12 @@ pub(super) fn run(case_line: &str, ctx: &mut Ctx) -> String {
         }
         tokio::time::sleep(std::time::Duration::from_millis(2)).await;
         Ok((cluster.frames(), mark))
-    });
+    })
+    };
+    let frames = match exec(g.via == "pbatch") {
+        Err(e) if e == "retry-plain" => exec(false),
+        x => x,
+    };
     let (frames, mark) = match frames {
         Ok(f) => f,
         Err(skip) => return skip,
